@@ -388,8 +388,8 @@ func cmdCfgs(args []string) {
 		}
 		idx := 0
 		off := int(seedFromEnv()) % *stride
-		// lists that mix the wildcard atom with another atom take the short-cut paths of the validators (`*` subsumes the rest):
-		// they are always replayed; the remaining cases are sampled by stride
+		// origin lists that mix `*` with another atom take the short-cut paths of the validator (`*` subsumes the rest, the
+		// tree is discarded): they are always replayed (1.5 k cases); the remaining cases are sampled by stride
 		starMix := func(ids []string) bool {
 			if len(ids) < 2 {
 				return false
@@ -410,7 +410,7 @@ func cmdCfgs(args []string) {
 			if err := json.Unmarshal(line, &cc); err != nil {
 				fatal("bad case: %v", err)
 			}
-			if (idx+off)%*stride != 0 && !starMix(cc.O) && !starMix(cc.M) && !starMix(cc.H) && !starMix(cc.E) {
+			if (idx+off)%*stride != 0 && !starMix(cc.O) {
 				return
 			}
 			ac := absConfig{Origins: mk(cc.O), Methods: mk(cc.M), ReqH: mk(cc.H), RespH: mk(cc.E),
